@@ -37,6 +37,31 @@ impl s2n_quic::provider::random::Generator for Random {
     }
 }
 
+/// deterministic stateless-reset tokens (a keyed function of the connection id), so that stateless resets are enabled
+pub struct SrTokens(pub u64);
+impl s2n_quic::provider::stateless_reset_token::Provider for SrTokens {
+    type Generator = Self;
+    type Error = core::convert::Infallible;
+    fn start(self) -> Result<Self, Self::Error> {
+        Ok(self)
+    }
+}
+impl s2n_quic::provider::stateless_reset_token::Generator for SrTokens {
+    const ENABLED: bool = true;
+    fn generate(&mut self, local_connection_id: &[u8]) -> s2n_quic_core::stateless_reset::Token {
+        let mut t = [0u8; 16];
+        let mut h = self.0 ^ 0x9E37_79B9_7F4A_7C15;
+        for (i, b) in t.iter_mut().enumerate() {
+            for c in local_connection_id {
+                h = (h ^ *c as u64).wrapping_mul(0x100_0000_01b3).rotate_left(7);
+            }
+            h = h.wrapping_add(i as u64);
+            *b = (h >> 32) as u8;
+        }
+        t.into()
+    }
+}
+
 pub fn limits_of(l: &Limits) -> limits::Limits {
     limits::Limits::new()
         .with_data_window(l.data_window).unwrap()
@@ -60,6 +85,7 @@ macro_rules! build {
             .with_limits(limits_of($l)).unwrap()
             .with_event(rec::Recorder { ep: $ep }).unwrap()
             .with_random(Random::new($seed)).unwrap()
+            .with_stateless_reset_token(SrTokens($seed)).unwrap()
             .with_packet_interceptor($tap).unwrap();
         if $l.cc == "bbr" {
             b.with_congestion_controller(cc::Bbr::default()).unwrap().start().unwrap()
@@ -115,9 +141,27 @@ pub fn run(sc: &Scenario, hooks: Hooks) -> Vec<Value> {
             primary::spawn(async move {
                 let connect = Connect::new(addr).with_server_name("localhost");
                 emit(json!({"ev": "app_connect_call", "ep": "c"}));
-                match client.connect(connect).await {
-                    Ok(conn) => apps::drive(sh.clone(), "c", conn),
-                    Err(e) => emit(json!({"ev": "app_connect_err", "ep": "c", "err": rec::error_json(&e)})),
+                let attempt = client.connect(connect);
+                let early = sh.sc.family == "handshake" && sh.sc.close_at_us > 0;
+                let outcome = if early {
+                    // the application may give up while the handshake is still running
+                    let timer = io::time::delay(Duration::from_micros(sh.sc.close_at_us));
+                    futures::pin_mut!(attempt);
+                    futures::pin_mut!(timer);
+                    match futures::future::select(attempt, timer).await {
+                        futures::future::Either::Left((r, _)) => Some(r),
+                        futures::future::Either::Right(_) => None,
+                    }
+                } else {
+                    Some(attempt.await)
+                };
+                match outcome {
+                    Some(Ok(conn)) => apps::drive(sh.clone(), "c", conn),
+                    Some(Err(e)) => emit(json!({"ev": "app_connect_err", "ep": "c", "err": rec::error_json(&e)})),
+                    None => {
+                        emit(json!({"ev": "app_connect_abandoned", "ep": "c"}));
+                        sh.started.store(true, Ordering::SeqCst);
+                    }
                 }
                 // keep the endpoint alive until everything is over
                 loop {
